@@ -30,6 +30,10 @@ type RegScenario struct {
 	Actors [][]RegOp `json:"actors"`
 	// Resolver: what the test org.varlink.resolver interface answers (nil = not registered).
 	Resolver *ResolverSpec `json:"resolver,omitempty"`
+	// Other: a second, independent service in the same process (its own identity
+	// and interfaces, served on its own address for the whole run): what one
+	// service reports never depends on what was registered with another.
+	Other *ServiceSpec `json:"other,omitempty"`
 }
 
 // ResolverSpec scripts the org.varlink.resolver test interface.
@@ -119,6 +123,20 @@ func (s *RegScenario) Setup(k *sim.Kernel) {
 	}
 	network, addr := splitAddr(s.Service.Address)
 	ctx := context.Background()
+	var other *varlink.Service
+	if s.Other != nil {
+		o, err := varlink.NewService(s.Other.Vendor, s.Other.Product, s.Other.Version, s.Other.URL)
+		if err != nil {
+			panic(err)
+		}
+		for _, is := range s.Other.Ifaces {
+			if err := o.RegisterInterface(&descIface{is.Name, is.Desc}); err != nil {
+				panic(err)
+			}
+		}
+		other = o
+		k.Spawn("other-serve", func() { o.Listen(ctx, s.Other.Address, 0) })
+	}
 	for ai, ops := range s.Actors {
 		ai, ops := ai, ops
 		k.Spawn(sf("actor%d", ai), func() {
@@ -208,6 +226,36 @@ func (s *RegScenario) Setup(k *sim.Kernel) {
 					default:
 						o.Out = "error:" + r.Err + ":" + r.ErrName
 					}
+				case "ogetinfo", "ogetdesc":
+					onet, oaddr := splitAddr(s.Other.Address)
+					sim.Await(sim.Cond{Kind: sim.CondBound, S1: onet, S2: oaddr})
+					ep, err := sim.Dial(onet, oaddr)
+					if err != nil {
+						continue
+					}
+					oc := varlink.VerifNewConnection(ep)
+					if op.Op == "ogetinfo" {
+						var vendor, product, version, url string
+						var ifaces []string
+						if err := oc.GetInfo(ctx, &vendor, &product, &version, &url, &ifaces); err != nil {
+							o.Failed, o.Out = true, errClass(err)
+						} else {
+							o.Out = mustJSON([]interface{}{vendor, product, version, url, ifaces})
+						}
+					} else {
+						d, err := oc.GetInterfaceDescription(ctx, op.Name)
+						var r e2eReply
+						describeClientErr(err, &r)
+						switch {
+						case err == nil:
+							o.Out = "text:" + d
+						case r.Err == "InvalidParameter":
+							o.Out = "InvalidParameter:" + r.ErrField
+						default:
+							o.Failed, o.Out = true, r.Err
+						}
+					}
+					oc.Close()
 				case "rgetinfo":
 					if !connect() {
 						continue
@@ -263,6 +311,9 @@ func (s *RegScenario) Setup(k *sim.Kernel) {
 			sim.Rec("shutdown.call", "janitor")
 			svc.Shutdown()
 			sim.Rec("shutdown.return", "")
+			if other != nil && i >= 1 {
+				other.Shutdown()
+			}
 		}
 	})
 }
@@ -416,11 +467,12 @@ func (s *RegScenario) Check(k *sim.Kernel) []sim.Violation {
 		}
 	}
 	// ---- history for the linearizability check
+	mainNet, mainAddr := splitAddr(s.Service.Address)
 	var hist []porcupine.Operation
 	serveTaskFirstAccept := func(call uint64) (uint64, bool) {
 		// the first Accept call on a listener bound after the serving call was invoked
 		for _, l := range k.Listeners {
-			if l.BindSeq >= call && len(l.AcceptLog) > 0 {
+			if l.Network == mainNet && l.Address == mainAddr && l.BindSeq >= call && len(l.AcceptLog) > 0 {
 				return l.AcceptLog[0].Seq, true
 			}
 		}
@@ -464,7 +516,7 @@ func (s *RegScenario) Check(k *sim.Kernel) []sim.Violation {
 			// (a Shutdown may come before the first Accept: the two then overlap.)
 			bound := false
 			for _, l := range k.Listeners {
-				if l.BindSeq >= o.Call && int64(l.BindSeq) <= ret {
+				if l.Network == mainNet && l.Address == mainAddr && l.BindSeq >= o.Call && int64(l.BindSeq) <= ret {
 					bound = true
 				}
 			}
@@ -536,6 +588,39 @@ func (s *RegScenario) Check(k *sim.Kernel) []sim.Violation {
 		res := porcupine.CheckOperationsTimeout(s.regModel(), hist, 0)
 		if res == porcupine.Illegal {
 			out = append(out, vio("linearizable", "history-not-linearizable "+s.firstOddity(hist), "the %d completed operations cannot be explained by any sequential order consistent with their invocation/return order against the model {identity, names in registration order, descriptions, serving}: %s", len(hist), describeHistory(hist)))
+		}
+	}
+	// ---- the other service answers from its own registrations only
+	if s.Other != nil {
+		onames := []string{"org.varlink.service"}
+		for _, is := range s.Other.Ifaces {
+			onames = append(onames, is.Name)
+		}
+		for _, o := range obs {
+			if o.Failed {
+				continue
+			}
+			switch o.Op {
+			case "ogetinfo":
+				want := mustJSON([]interface{}{s.Other.Vendor, s.Other.Product, s.Other.Version, s.Other.URL, onames})
+				if o.Out != want {
+					out = append(out, vio("isolation", "other-service-getinfo", "the second service reports %s, it was created and registered as %s", abbreviate(o.Out, 200), abbreviate(want, 200)))
+				}
+			case "ogetdesc":
+				want := "InvalidParameter:interface"
+				for _, is := range s.Other.Ifaces {
+					if is.Name == o.Name {
+						want = "text:" + is.Desc
+					}
+				}
+				if o.Name == "org.varlink.service" {
+					if !strings.HasPrefix(o.Out, "text:") {
+						out = append(out, vio("isolation", "other-service-getdesc", "the second service has no description of org.varlink.service: %s", abbreviate(o.Out, 100)))
+					}
+				} else if o.Out != want {
+					out = append(out, vio("isolation", "other-service-getdesc", "GetInterfaceDescription(%q) on the second service returned %s, expected %s (it must not see what was registered with the first one)", o.Name, abbreviate(o.Out, 120), abbreviate(want, 120)))
+				}
+			}
 		}
 	}
 	// ---- a helper call that reached the service is answered: the only transport
@@ -721,6 +806,19 @@ func genC13(seed uint64, tier string) Scenario {
 			s.Resolver.Addresses[pool[g.IntN(len(pool))]] = "unix:" + g.String(10)
 		}
 	}
+	if g.Pct(35) {
+		s.Other = &ServiceSpec{Vendor: g.String(6), Product: g.String(6), Version: g.String(3), URL: g.String(8), Address: "unix:@c13-other"}
+		for i, n := 0, g.IntN(3); i < n; i++ {
+			nm := pool[g.IntN(len(pool))]
+			dup := false
+			for _, is := range s.Other.Ifaces {
+				dup = dup || is.Name == nm
+			}
+			if !dup {
+				s.Other.Ifaces = append(s.Other.Ifaces, IfaceSpec{Name: nm, Desc: "interface other " + nm + "\n" + g.String(20)})
+			}
+		}
+	}
 	// the life-cycle actor: registrations and serving rounds
 	rounds := 1 + g.IntN(3)
 	var life []RegOp
@@ -789,6 +887,9 @@ func genC13(seed uint64, tier string) Scenario {
 					op.Op, op.Name = "resolve", g.Pick("org.varlink.resolver", pool[g.IntN(len(pool))], "nope")
 				default:
 					op.Op = "getinfo"
+				}
+				if s.Other != nil && g.Pct(15) {
+					op = RegOp{Op: g.Pick("ogetdesc", "ogetdesc", "ogetinfo"), Name: askable(), Wait: op.Wait}
 				}
 				if g.Pct(10) {
 					op.DeadlineUs = 3600e6
